@@ -218,3 +218,23 @@ func OF1(a int) int {
 	}
 	return x
 }
+
+// V is reached through a value instance (Struct(V{}).Method("ValM")) and through a pointer instance
+// (Struct(&V{}).Method("PtrM")): one type, two instances, two different methods.
+type V struct{ K int }
+
+//go:noinline
+func (v V) ValM(a int) int {
+	if a > 1<<50 {
+		return a*23 - v.K
+	}
+	return a + 150
+}
+
+//go:noinline
+func (v *V) PtrM(a int) int {
+	if a > 1<<51 {
+		return a*29 - v.K
+	}
+	return a + 250
+}
